@@ -231,4 +231,47 @@ example (z : Fields) (m : Int) (req : ReportReq) (h : req.addr.PortOk) :
 example (m iv : Int) : Client (Prog.call Call.now fun now => (UC.refresh m (now + iv)).bind fun r => pure (match r with | .ok _ => "ok" | .error _ => "err")) :=
   Client.now _ (fun _ => Client.map _ _ (Client.refresh _ _))
 
+
+/-! ## the hypotheses are needed; a third way to lose the backing -/
+
+/-- **why `hcanon` / valid addresses are assumed** (a model artifact: `Addr.key` is injective only on ports
+1..65535, the real key `Addr.String()` is injective and `addr.New` rejects other ports).  (1) A fault-free,
+complete `probeserver` run for a probe whose address is *not* the one stored under its key breaks a fully backed,
+keyed store: the re-queued probe carries the probe's address, the mark lands on the stored record.  (2) In a
+popper-free system started from the empty store, one reporter with an out-of-range address that collides with a
+valid one is enough to break `Backed` by interleaving alone. -/
+theorem address_hypotheses_needed :
+    (Backed W.badState ∧ Keyed W.badState ∧
+      ¬ Backed ((UC.probe ⟨W.goodA, 5, .port, 0, 2⟩ none).run W.badState 5).1) ∧
+    (W.badA.key = W.goodA.key ∧ ¬ W.badA.PortOk ∧ W.goodA.PortOk ∧
+      Backed (W.collisionSys.run (W.collisionEvents.take 10)).abs ∧
+      ¬ Backed (W.collisionSys.run W.collisionEvents).abs) := by
+  refine ⟨⟨?_, ?_, ?_⟩, by decide, by unfold Addr.PortOk; decide, by unfold Addr.PortOk; decide, ?_, ?_⟩
+  · rw [← backedB_iff]; decide
+  · intro k row h
+    simp only [W.badState, ExtTreeMap.getElem?_insert] at h
+    split at h
+    · rename_i hk
+      cases h
+      simpa using hk
+    · simp at h
+  · rw [← backedB_iff, Bool.not_eq_true]; decide
+  · rw [← backedB_iff]; decide
+  · rw [← backedB_iff, Bool.not_eq_true]; decide
+
+/-- **a race that needs no crash and no fault** (not one of the two recorded findings; it needs a popper *and* a
+removal between a reporter's lookup and its write, so the popper-free theorem above is not affected).  A is marked
+`port_retry` and its probe is queued.  A reporter looks A up; a cleaner removes A; a prober pops A's probe, finds
+no server and drops the probe; the reporter's `Add` then stores its stale copy — mark included — as a new row
+(`servers.Add` saves the caller's record when the row is absent) and, seeing the mark, does not enqueue.  All
+three clients have finished, the queue is empty, the mark has no probe. -/
+theorem stale_readd_unbacked :
+    Backed W.staleSys.abs ∧
+    (W.staleSys.run W.staleEvents).clients.map UClient.live = [false, false, false] ∧
+    (W.staleSys.run W.staleEvents).abs.queue = [] ∧
+    ¬ Backed (W.staleSys.run W.staleEvents).abs := by
+  refine ⟨?_, by decide, by decide, ?_⟩
+  · rw [← backedB_iff]; decide
+  · rw [← backedB_iff, Bool.not_eq_true]; decide
+
 end Swat4.C16
